@@ -1,7 +1,17 @@
 use crate::{
-    ContextSelectionSet, OutputType, Positioned, ServerResult, Value, extensions::ResolveInfo,
-    parser::types::Field,
+    ContextSelectionSet, OutputType, Positioned, ServerError, ServerResult, Value,
+    extensions::ResolveInfo, parser::types::Field,
 };
+
+/// An error raised below the item already carries the more specific path of
+/// the field that failed; only errors of the item itself get the item's path.
+fn set_item_error_path(ctx_idx: &ContextSelectionSet<'_>, err: ServerError) -> ServerError {
+    if err.path.is_empty() {
+        ctx_idx.set_error_path(err)
+    } else {
+        err
+    }
+}
 
 /// Resolve an list by executing each of the items concurrently.
 pub async fn resolve_list<'a, T: OutputType + 'a>(
@@ -33,7 +43,7 @@ pub async fn resolve_list<'a, T: OutputType + 'a>(
                         OutputType::resolve(&item, &ctx_idx, field)
                             .await
                             .map(Option::Some)
-                            .map_err(|err| ctx_idx.set_error_path(err))
+                            .map_err(|err| set_item_error_path(&ctx_idx, err))
                     };
                     futures_util::pin_mut!(resolve_fut);
                     extensions
@@ -53,7 +63,7 @@ pub async fn resolve_list<'a, T: OutputType + 'a>(
             futures.push(async move {
                 OutputType::resolve(&item, &ctx_idx, field)
                     .await
-                    .map_err(|err| ctx_idx.set_error_path(err))
+                    .map_err(|err| set_item_error_path(&ctx_idx, err))
             });
         }
         Ok(Value::List(
